@@ -345,8 +345,37 @@ def check(case, acc, tmp):
             bad('read-generated_by', '%s: generated_by %r, expected %r' % (rd, r.generated_by, gen))
         if r.create_date != DATE:
             bad('read-date', '%s: create_date %r, expected %r' % (rd, r.create_date, DATE))
+        # the table just read is a table like any other: written again (both forms) it gives the same document
+        acc.evals += 1
+        try:
+            s2 = r.to_json(gen, creation_date=DATE)
+            buf2 = io.StringIO()
+            r.to_json(gen, direct_io=buf2, creation_date=DATE)
+            d2, d3 = json.loads(s2), json.loads(buf2.getvalue())
+        except Exception as e:
+            bad('second-generation:raised:%s' % type(e).__name__, 'the table read by %s cannot be written again: %s: %s'
+                % (rd, type(e).__name__, str(e)[:200]))
+            continue
+        if d2 != d3:
+            bad('second-generation:direct-vs-string', 'second write of the table read by %s: the two forms differ' % rd)
+        elif _listed(d2) != _listed(doc):
+            diffk = sorted(k for k in _listed(doc) if _listed(d2).get(k) != _listed(doc).get(k))
+            bad('second-generation:document', 'second write of the table read by %s differs from the first document in %r'
+                % (rd, diffk))
+        else:
+            acc.count('clause:second-generation')
     os.unlink(path)
     os.unlink(gz)
+
+
+def _listed(doc):
+    """the parts of a document the property lists (ids, metadata, type, generated-by, date, values)"""
+    out = {k: doc.get(k) for k in ('rows', 'columns', 'shape', 'type', 'generated_by', 'date')}
+    try:
+        out['data'] = sorted((int(e[0]), int(e[1]), float(e[2])) for e in doc.get('data', []))
+    except Exception:
+        out['data'] = doc.get('data')
+    return out
 
 
 # ----------------------------------------------------------------------------- histories
@@ -391,6 +420,15 @@ def history_roundtrip(t, m, report):
         report('history:read-type', 'type %r, expected %r' % (r.type, ttype))
     else:
         report.count('clause:history-roundtrip')
+        try:
+            d3 = json.loads(r.to_json('verif', creation_date=DATE))
+        except Exception as e:
+            report('history:second-generation:raised:' + type(e).__name__, 'the table read back cannot be written '
+                   'again: %s: %s' % (type(e).__name__, e))
+            return
+        if _listed(d3) != _listed(d1):
+            report('history:second-generation:document', 'second write differs from the first in %r'
+                   % sorted(k for k in _listed(d1) if _listed(d3).get(k) != _listed(d1).get(k)))
 
 
 def history_spec(depth):
